@@ -61,7 +61,10 @@ PARTIAL = [
     'correspondence + oracle on small exact inputs',
     'natural_breaks: that classification by `first break >= value` reproduces the back-tracked partition (i.e. that an optimal cut never '
     'separates equal values) is not proved; the oracle checks the SSD of the classes the breaks induce against the exact minimum',
-    'equal_interval / quantile bin construction: oracle only (float arange / percentile are NumPy primitives)',
+    'quantile bin construction: proved for the exact-rational model of linspace/np.percentile(linear)/np.unique (Quantile.v, 4 theorems); the float '
+    'rounding of the real cuts (an ulp either side of the exact cut, which can leave two equal cuts un-merged) is not modelled — the captured '
+    'cuts are compared with the model\'s up to a stated tolerance and classes only off the cuts',
+    'equal_interval bin construction: exact band theorem (ei_cuts); the float arange cuts are compared by the oracle only',
 ]
 
 
@@ -489,6 +492,110 @@ def run_jenks_imp_stream(ctx, classify):
         compare_jenks_imp(ctx, case, impl, mo)
 
 
+# ---- quantile's cut construction vs the extracted exact model (coq/C12/Quantile.v) ----------------------------
+def gen_quantile_cut_cases(ctx):
+    """integer / dyadic rasters (exact in every dtype used) with ties, NaN/inf cells, k = 2..9 (sometimes up to 24,
+    sometimes larger than the number of cells); the model works on the sorted finite cells scaled to integers"""
+    rng = ctx.rng
+    count = 120 if ctx.quick() else 2400
+    for i in range(count):
+        kind = ['ints', 'ties', 'dyadic', 'wide', 'tiny'][i % 5]
+        dtype = ['float64', 'float32', 'int32', 'int64', 'float64'][(i // 5) % 5]
+        rows, cols = rng.randint(1, 6), rng.randint(1, 6)
+        if kind == 'tiny':
+            rows, cols = 1, rng.randint(1, 3)
+        n = rows * cols
+        if kind == 'ints':
+            vals = [float(rng.randint(-20, 40)) for _ in range(n)]
+        elif kind == 'ties':
+            pool = rng.sample(range(-5, 30), rng.randint(1, 4))
+            vals = [float(rng.choice(pool)) for _ in range(n)]
+        elif kind == 'dyadic':
+            vals = [rng.randint(-64, 160) / (4.0 if dtype.startswith('f') else 1.0) for _ in range(n)]
+        elif kind == 'wide':
+            vals = [float(rng.choice([-1, 1]) * rng.randint(0, 2 ** 20)) for _ in range(n)]
+        else:
+            vals = [float(rng.randint(0, 5)) for _ in range(n)]
+        if dtype.startswith('f') and n > 2 and rng.random() < 0.5:
+            for _ in range(rng.randint(1, max(1, n // 4))):
+                vals[rng.randrange(n)] = rng.choice([float('nan'), float('inf'), float('-inf')])
+        if not any(math.isfinite(v) for v in vals):
+            vals[0] = 3.0
+        k = rng.choice([2, 3, 4, 4, 5, 6, 7, 8, 9, rng.randint(10, 24)])
+        data = [vals[r * cols:(r + 1) * cols] for r in range(rows)]
+        yield dict(fn='quantile', k=k, data=data, dtype=dtype, kind='qcuts/' + kind)
+
+
+def run_quantile_cuts_stream(ctx, classify):
+    import contextlib
+    import io
+    pend = []
+    for case in gen_quantile_cut_cases(ctx):
+        ctx.case(case)
+        ctx.count('quantile-cuts/%s/%s' % (case['kind'], case['dtype']))
+        a = np.array(case['data'], dtype='float64')
+        a = a.astype(case['dtype']) if case['dtype'].startswith('f') else np.nan_to_num(a).astype(case['dtype'])
+        k = case['k']
+        try:
+            with BinCapture(classify) as cap:
+                with contextlib.redirect_stdout(io.StringIO()), contextlib.redirect_stderr(io.StringIO()):
+                    out = to_floats(classify.quantile(xr.DataArray(a, dims=['y', 'x']), k=k).data)
+        except Exception as e:
+            ctx.violation('oracle', 'quantile raised %s: %s' % (type(e).__name__, e), case)
+            continue
+        if len(cap.calls) != 1:
+            ctx.violation('correspondence', 'quantile no longer classifies through exactly one _bin call (%d calls)' % len(cap.calls), case)
+            continue
+        bins = [float(b) for b in cap.calls[0][0].tolist()]
+        check_datadriven_oracle(ctx, 'quantile', a, k, out, bins, case)
+        fin = sorted(v for r in to_floats(a) for v in r if math.isfinite(v))
+        sc = xvio.scale_for(fin)
+        pend.append(('qcuts %d %s' % (k, xvio.lst(fin, sc)), case, sc, fin, bins, to_floats(a), out))
+    if ctx.model is None or not pend:
+        return
+    outs = ctx.model.run([p[0] for p in pend])
+    for (line, case, sc, fin, bins, data, out), mo in zip(pend, outs):
+        ctx.traces += 1
+        k = case['k']
+        try:
+            cuts_s, cls_s = [t.strip() for t in mo.split('|')]
+            mcuts = [Fraction(int(t, 0), k * sc) for t in cuts_s.split()]
+            mcls = [xvio.parse(t, 1) for t in cls_s.split()]
+            assert len(mcls) == len(fin) and mcuts
+        except Exception:
+            ctx.violation('correspondence', 'quantile cuts: model returned %s' % mo[:120], case)
+            continue
+        span = max(abs(Fraction(fin[0])), abs(Fraction(fin[-1]))) + 1
+        tol = span * (Fraction(1, 10 ** 5) if case['dtype'] == 'float32' else Fraction(1, 10 ** 9))
+        def near(x, y):
+            return abs(Fraction(x) - Fraction(y)) <= tol
+        ok = all(any(near(b, c) for c in mcuts) for b in bins) and all(any(near(b, c) for b in bins) for c in mcuts) \
+            and Fraction(bins[-1]) == mcuts[-1]
+        if not ok:
+            ctx.violation('correspondence', 'quantile: the cuts handed to _bin %r are not the model\'s de-duplicated percentile cuts %r '
+                          '(k=%d, sorted finite data %r)' % (bins, [float(c) for c in mcuts], k, fin),
+                          dict(case, bins=bins, model_cuts=[float(c) for c in mcuts]))
+            continue
+        ctx.count('quantile-cuts/cuts-compared')
+        if len(bins) != len(mcuts):
+            continue        # float rounding left two nearly-equal cuts un-merged (or merged): class numbers shift, cuts agree
+        mclass = {}
+        for v, c in zip(fin, mcls):
+            mclass[v] = c
+        bad = None
+        for rv, ro in zip(data, out):
+            for v, o in zip(rv, ro):
+                if not math.isfinite(v) or any(near(v, c) for c in mcuts):
+                    continue     # a value sitting on a cut: the float cut may fall an ulp to either side
+                if not (o == mclass[v]):
+                    bad = (v, o, mclass[v])
+        if bad:
+            ctx.violation('correspondence', 'quantile: value %r got class %r, the model (first percentile cut >= value) says %r '
+                          '(k=%d, cuts %r)' % (bad[0], bad[1], bad[2], k, bins), dict(case, bins=bins, value=bad[0], got=bad[1], model=bad[2]))
+            continue
+        ctx.count('quantile-cuts/classes-compared')
+
+
 def run(ctx):
     classify = _impl()
     pending = []
@@ -804,6 +911,8 @@ def run(ctx):
                               dict(case, got_ssd=float(got), min_ssd=float(best)))
     # ---- the imperative Jenks model vs _run_numpy_jenks_matrices / _run_jenks (rng draws come last) ----
     run_jenks_imp_stream(ctx, classify)
+    # ---- quantile's percentile cuts vs the exact model (Quantile.v); rng draws after every earlier stream ----
+    run_quantile_cuts_stream(ctx, classify)
 
 
 def search(ctx):
